@@ -402,6 +402,59 @@ def run_impl(ctx, cases, timeout=1800):
     return r["ok"]
 
 
+def display_terminal_scenarios(ctx, cov):
+    """The image is displayed on out_display.  When that stream is a terminal of its own (another pane, another pty) whose
+    geometry differs from the controlling terminal's, the automatic limits and the automatic cell size are those of the
+    DISPLAY terminal — whichever of the two was opened first."""
+    work = ctx.work
+    geoms = [((24, 80, 640, 384), (12, 40, 400, 240)), ((50, 200, 2000, 1000), (10, 30, 270, 200)), ((12, 40, 400, 240), (24, 80, 640, 384))]
+
+    def child(ga, gb, b_first):
+        import fcntl
+        import pty
+        import struct
+        import termios
+
+        common.scrub_process_env()
+        os.environ["HOME"] = work
+        os.environ["XDG_STATE_HOME"] = os.path.join(work, "state")
+        os.environ["XDG_CONFIG_HOME"] = os.path.join(work, "config")
+        tup = common.import_impl()
+        fcntl.ioctl(0, termios.TIOCSWINSZ, struct.pack("HHHH", *ga))
+        streams = {}
+
+        def open_b():
+            master, slave = pty.openpty()
+            fcntl.ioctl(slave, termios.TIOCSWINSZ, struct.pack("HHHH", *gb))
+            streams["b"] = os.fdopen(slave, "wb", buffering=0)
+
+        def open_a():
+            streams["a_in"] = open("/dev/tty", "rb", buffering=0)
+            streams["a_out"] = open("/dev/tty", "wb", buffering=0)
+        for f in ((open_b, open_a) if b_first else (open_a, open_b)):
+            f()
+        t = tup.TupimageTerminal(out_command=streams["a_out"], out_display=streams["b"], in_response=streams["a_in"], id_database=os.path.join(work, "c15-two.db"),
+                                 config="DEFAULT", redetect_terminal=False, num_tmux_layers=0)
+        return {"max": list(t.get_max_cols_and_rows()), "cell": list(t.get_cell_size()), "opt": list(t.get_optimal_cols_and_rows(1000, 100)),
+                "fds": [streams["b"].fileno(), streams["a_in"].fileno(), streams["a_out"].fileno()]}
+
+    for ga, gb in geoms:
+        for b_first in (False, True):
+            r = common.in_pty(lambda ga=ga, gb=gb, b_first=b_first: child(ga, gb, b_first), timeout=120)
+            if "ok" not in r:
+                ctx.corr_breaks.append({"what": "two-terminal scenario failed in the pty sandbox", "error": {k: v for k, v in r.items() if k != "tty"}})
+                continue
+            o = r["ok"]
+            want_max = [gb[1], gb[0]]
+            want_cell = [gb[2] // gb[1], gb[3] // gb[0]]
+            cov.add({"controlling": ga, "display": gb, "display_opened_first": b_first, "observed": o}, klass="two-terminals/" + ("display-first" if b_first else "tty-first"))
+            if o["max"] != want_max or o["cell"] != want_cell or o["opt"][0] > gb[1] or o["opt"][1] > gb[0]:
+                ctx.violations.append({"signature": {"class": "limits-of-the-wrong-terminal"},
+                                       "what": f"out_display is a terminal of {gb[1]}x{gb[0]} cells of {want_cell[0]}x{want_cell[1]} px, the controlling terminal has {ga[1]}x{ga[0]} cells: "
+                                               f"automatic limits {o['max']}, cell size {o['cell']}, box for a 1000x100 image {o['opt']} (stream fds display/in/out: {o['fds']})",
+                                       "case": {"kind": "two-terminals", "controlling": list(ga), "display": list(gb), "display_opened_first": b_first}})
+
+
 # ------------------------------------------------------------------------------------------ Spec oracle
 def ceil_frac(x):
     return -((-x.numerator) // x.denominator)
@@ -614,6 +667,7 @@ def run(ctx, model):
     from collections import Counter
     stats = Counter()
     evaluate(ctx, model, cases, cov, stats)
+    display_terminal_scenarios(ctx, cov)
     for k, v in sorted(stats.items()):
         cov.bump("~" + k, v)
     ctx.notes.append("binary64 vs exact-rational instance (decimal reading of the scales): "
@@ -625,6 +679,12 @@ def run(ctx, model):
 
 def replay(ctx, model, rec):
     c = rec["case"]
+    if c.get("kind") == "two-terminals":
+        n0 = len(ctx.violations)
+        display_terminal_scenarios(ctx, common.Coverage("replay"))
+        mine = ctx.violations[n0:]
+        del ctx.violations[n0:]
+        return {"violates": bool(mine), "violations": [v["what"] for v in mine][:3]}
     common.scrub_process_env()
     r = run_impl(ctx, [c], timeout=120)[0]
     status, bad, info = oracle(c, r)
